@@ -31,6 +31,8 @@ def run(ctx):
     b_siblings(ctx, t)
     d_activation(ctx)
     e_start_under_live_parent(ctx, t)
+    a_action_tracking(ctx, t)
+    d_cleanup_keeps_reference(ctx, t)
     try:
         from . import C12
         C12.scope_pairing(ctx, "C06.c.scopes")
@@ -291,3 +293,57 @@ def e_start_under_live_parent(ctx, t):
                   "the new instance is linked to `%s` only after a liveness test of that parent" % parent if tests else
                   "the new instance is linked to `%s` without checking that this parent is still running: a StartFlow that is processed after its sender was stopped creates a child of a dead flow, which nobody stops any more" % parent,
                   line=l.line)
+
+
+def a_action_tracking(ctx, t):
+    """A flow stops exactly the actions listed in its action_uids when it ends.  An unfinished action may therefore never be taken off that list
+    before the flow ends (the only permitted write besides append is the in-place redirect of a co-winner's uid, checked by C09.g)."""
+    SHRINK = {"remove", "pop", "clear", "__delitem__"}
+    sites = []
+    appends = 0
+    for fn in functions(t):
+        for n in walk_no_nested(fn):
+            if isinstance(n, ast.Call) and isinstance(n.func, ast.Attribute) and isinstance(n.func.value, ast.Attribute) and n.func.value.attr == "action_uids":
+                if n.func.attr in SHRINK:
+                    sites.append((fn, n, "`%s` takes an action off the list" % first_line(n, 70)))
+                elif n.func.attr == "append":
+                    appends += 1
+            if isinstance(n, ast.Delete):
+                for x in n.targets:
+                    if isinstance(x, ast.Subscript) and isinstance(x.value, ast.Attribute) and x.value.attr == "action_uids":
+                        sites.append((fn, n, "`%s` deletes from the list" % first_line(n, 70)))
+            if isinstance(n, (ast.Assign, ast.AugAssign)):
+                tg = n.targets if isinstance(n, ast.Assign) else [n.target]
+                for x in tg:
+                    if isinstance(x, ast.Attribute) and x.attr == "action_uids":
+                        sites.append((fn, n, "`%s` replaces the list" % first_line(n, 70)))
+                    if isinstance(x, ast.Subscript) and isinstance(x.slice, ast.Slice) and isinstance(x.value, ast.Attribute) and x.value.attr == "action_uids":
+                        sites.append((fn, n, "`%s` replaces a slice of the list" % first_line(n, 70)))
+    ctx.floor("C06.a.action-tracking", SM, "registrations of started actions (action_uids.append)", appends, 1)
+    ctx.check("C06.a.action-tracking", SM, "<module>", "no removal from action_uids", not sites,
+              "started actions are only ever appended to a flow's action_uids (%d registration site(s)); nothing removes one while the flow lives" % appends, line=1)
+    for fn, n, why in sites:
+        ctx.check("C06.a.action-tracking", SM, fn.name, first_line(n, 70), False,
+                  "%s: if that action has not finished, the flow's end no longer sends its Stop event and the action outlives the flow" % why, line=n.lineno)
+
+
+def d_cleanup_keeps_reference(ctx, t):
+    """The ended first instance of an activated flow carries the activation counter and is the entry in its activator's child list; it must not be
+    garbage-collected while activated > 0: `activated == 0` has to be a necessary condition of removal."""
+    fn = find_function(t, "_clean_up_state")
+    if fn is None:
+        raise AnalysisError("_clean_up_state not found", anchor=SM + "::_clean_up_state")
+    adds = [n for n in ast.walk(fn) if isinstance(n, ast.Call) and isinstance(n.func, ast.Attribute) and n.func.attr == "append" and "uid" in src(n) and "remove" in src(n.func.value)]
+    if not adds:
+        raise AnalysisError("collection of removable flow states not found in _clean_up_state", anchor=SM + "::_clean_up_state")
+    for a in adds:
+        conj = []
+        for p in _anc(a, fn):
+            if isinstance(p, ast.If):
+                te = p.test
+                conj += list(te.values) if isinstance(te, ast.BoolOp) and isinstance(te.op, ast.And) else [te]
+        ok = any(re.sub(r"\s", "", src(c)) in ("flow_state.activated==0", "notflow_state.activated", "flow_state.activated<=0", "flow_state.activated<1") for c in conj)
+        ctx.check("C06.d.cleanup-keeps-reference", SM, fn.name, first_line(a, 70), ok,
+                  "a flow state is collected only if `activated == 0` (a necessary conjunct of the removal condition)" if ok else
+                  "an ended flow state can be collected while `activated > 0`: the reference instance that carries the activation counter disappears, the activator's end no longer "
+                  "deactivates the restarted instance, which runs and restarts forever", line=a.lineno)
